@@ -20,9 +20,13 @@ type scope struct {
 }
 
 type renamer struct {
-	cur *scope
-	n   int
+	cur  *scope
+	n    int
+	decl map[string]token.Pos // canonical name -> where it is declared
 }
+
+// where the canonical locals of every renamed function are declared
+var declPos = map[*ast.FuncDecl]map[string]token.Pos{}
 
 func (r *renamer) push() { r.cur = &scope{parent: r.cur, names: map[string]string{}} }
 func (r *renamer) pop()  { r.cur = r.cur.parent }
@@ -34,6 +38,7 @@ func (r *renamer) declare(id *ast.Ident) {
 	r.n++
 	c := fmt.Sprintf("x%d", r.n)
 	r.cur.names[id.Name] = c
+	r.decl[c] = id.Pos()
 	id.Name = c
 }
 
@@ -58,7 +63,8 @@ func (r *renamer) fieldList(fl *ast.FieldList) {
 }
 
 func renameLocals(fd *ast.FuncDecl) {
-	r := &renamer{}
+	r := &renamer{decl: map[string]token.Pos{}}
+	declPos[fd] = r.decl
 	r.push()
 	r.fieldList(fd.Recv)
 	r.fieldList(fd.Type.Params)
@@ -124,6 +130,8 @@ func (r *renamer) stmt(s ast.Stmt) {
 		r.expr(s.X)
 	case *ast.BlockStmt:
 		r.block(s)
+	case *ast.LabeledStmt:
+		r.stmt(s.Stmt)
 	case *ast.IfStmt:
 		r.push()
 		r.stmt(s.Init)
@@ -248,16 +256,7 @@ func (r *renamer) expr(e ast.Expr) {
 	}
 }
 
-// ---------------------------------------------------------------- roles
-// The functions to translate are found by their place in the call graph below stable entry
-// points, not by their names: renaming an unexported helper keeps the tie.
-//   Builder.FromBytes : 1st package function it calls = reduceAny, 2nd = parseTemplatedElements
-//   reduceAny         : package functions it calls (other than itself): 1st = switchDimension, 2nd = keySet
-//   switchDimension   : 1st method of dimension it calls = parsesAll
-//   Get               : 1st package function it calls = getFromCache; its 1st = extractAndConvert;
-//                       the 1st of that = extract
-//   envVarTmpl.MatchAndResolve : fixed (method of the templateVariable interface)
-
+// declKey: "Recv.name" for methods, "name" for functions
 func declKey(fd *ast.FuncDecl) string {
 	if fd.Recv != nil && len(fd.Recv.List) == 1 {
 		t := fd.Recv.List[0].Type
@@ -271,102 +270,3 @@ func declKey(fd *ast.FuncDecl) string {
 	return fd.Name.Name
 }
 
-func callees(decls map[string]*ast.FuncDecl, fd *ast.FuncDecl, recvType string) []string {
-	var out []string
-	seen := map[string]bool{}
-	if fd == nil {
-		return nil
-	}
-	self := declKey(fd)
-	ast.Inspect(fd.Body, func(n ast.Node) bool {
-		c, ok := n.(*ast.CallExpr)
-		if !ok {
-			return true
-		}
-		fun := c.Fun
-		if ix, ok := fun.(*ast.IndexExpr); ok {
-			fun = ix.X
-		}
-		key := ""
-		switch f := fun.(type) {
-		case *ast.Ident:
-			if recvType == "" {
-				key = f.Name
-			}
-		case *ast.SelectorExpr:
-			if recvType != "" {
-				key = recvType + "." + f.Sel.Name
-			}
-		}
-		if d, ok := decls[key]; ok && key != self && !seen[key] && (recvType != "") == (d.Recv != nil) {
-			seen[key] = true
-			out = append(out, key)
-		}
-		return true
-	})
-	return out
-}
-
-func resolveRoles(decls map[string]*ast.FuncDecl) {
-	nth := func(l []string, i int, role string) {
-		if i < len(l) {
-			roleGo[role] = l[i]
-		}
-	}
-	fb := callees(decls, decls["Builder.FromBytes"], "")
-	nth(fb, 0, "reduceAny")
-	nth(fb, 1, "parseTemplatedElements")
-	ra := callees(decls, decls[roleGo["reduceAny"]], "")
-	nth(ra, 0, "switchDimension")
-	nth(ra, 1, "keySet")
-	nth(callees(decls, decls[roleGo["switchDimension"]], "dimension"), 0, "parsesAll")
-	nth(callees(decls, decls["Get"], ""), 0, "getFromCache")
-	nth(callees(decls, decls[roleGo["getFromCache"]], ""), 0, "extractAndConvert")
-	nth(callees(decls, decls[roleGo["extractAndConvert"]], ""), 0, "extract")
-	roleGo["MatchAndResolve"] = "envVarTmpl.MatchAndResolve"
-}
-
-// resolveNames finds the `default` key constant and the compiled-pattern variable.
-func resolveNames(files []*ast.File) {
-	for _, f := range files {
-		for _, d := range f.Decls {
-			gd, ok := d.(*ast.GenDecl)
-			if !ok {
-				continue
-			}
-			for _, sp := range gd.Specs {
-				vs, ok := sp.(*ast.ValueSpec)
-				if !ok || len(vs.Names) != 1 || len(vs.Values) != 1 {
-					continue
-				}
-				switch v := vs.Values[0].(type) {
-				case *ast.BasicLit:
-					if gd.Tok == token.CONST && v.Kind == token.STRING && v.Value == `"default"` {
-						defaultKeyName = vs.Names[0].Name
-					}
-				case *ast.CallExpr:
-					if sel, ok := v.Fun.(*ast.SelectorExpr); ok && sel.Sel.Name == "MustCompile" {
-						matcherVar = vs.Names[0].Name
-					}
-				case *ast.CompositeLit: // var templates = []templateVariable{&envVarTmpl{}}
-					if at, ok := v.Type.(*ast.ArrayType); ok && at.Len == nil && len(v.Elts) > 0 {
-						all := true
-						for _, el := range v.Elts {
-							u, ok := el.(*ast.UnaryExpr)
-							cl, ok2 := (ast.Expr)(nil), false
-							if ok {
-								cl, ok2 = u.X.(*ast.CompositeLit)
-							}
-							if !ok || !ok2 || ident(cl.(*ast.CompositeLit).Type) != "envVarTmpl" {
-								all = false
-							}
-						}
-						if all {
-							templatesVar, templatesLen = vs.Names[0].Name, len(v.Elts)
-						}
-					}
-				}
-			}
-		}
-	}
-}
